@@ -90,13 +90,19 @@ def instance_pool(r, n=6):
 
 def group_params(r, pool, idx, kinds=('planar', 'volumetric', 'image')):
     kind = r.choice(kinds)
+    ctx = {'session': ('session %d' % idx) if r.random() < 0.2 else None,
+           'algorithm': ('alg', '1.%d' % idx, ['p=1'] if r.random() < 0.5 else []) if r.random() < 0.2 else None,
+           'time_point': None, 'rwvm': (pool['base'] + '.6.1') if r.random() < 0.2 else None}
+    if r.random() < 0.3:
+        ctx['time_point'] = {'time_point': 'tp %d' % idx, 'type': r.choice([('TP1', '99VERIF'), None]),
+                             'order': r.choice([1, 2, None]), 'subject': r.choice(['subj', None])}
     g = {'kind': kind, 'tracking_uid': f'{pool["base"]}.9.{idx}', 'tracking_id': f'lesion {idx}',
          'finding_type': r.choice(FINDINGS + [None]), 'finding_category': r.choice(CATEGORIES + [None, None]),
          'finding_sites': r.sample(SITES, r.choice([0, 0, 1, 1, 2])), 'method': r.choice(METHODS_ + [None, None]),
          'lateralities': [],
          'measurements': [(r.choice(MEAS), r.randint(-40, 40) / 4, ('mm', 'UCUM')) for _ in range(r.choice([0, 1, 1, 2]))],
          'evaluations': [(r.choice(EVALS), r.choice(ANSWERS)) for _ in range(r.choice([0, 0, 1, 2]))],
-         'geometric_purpose': None, 'template': r.random() < 0.6}
+         'geometric_purpose': None, 'template': r.random() < 0.6, 'context': ctx}
     g['lateralities'] = [r.choice(LATERALITIES + [None, None]) for _ in g['finding_sites']]
     if r.random() < 0.15:
         # a tracking UID shared with another group (filters must return every match)
@@ -151,6 +157,15 @@ def build_group(r, g):
         finding_type=cc(g['finding_type']) if g['finding_type'] else None,
         finding_category=cc(g['finding_category']) if g['finding_category'] else None,
         method=cc(g['method']) if g['method'] else None,
+        session=g['context']['session'],
+        algorithm_id=sr.AlgorithmIdentification(name=g['context']['algorithm'][0], version=g['context']['algorithm'][1],
+                                                parameters=g['context']['algorithm'][2] or None) if g['context']['algorithm'] else None,
+        time_point_context=sr.TimePointContext(
+            time_point=g['context']['time_point']['time_point'],
+            time_point_type=cc(g['context']['time_point']['type']) if g['context']['time_point']['type'] else None,
+            time_point_order=g['context']['time_point']['order'],
+            subject_time_point_identifier=g['context']['time_point']['subject']) if g['context']['time_point'] else None,
+        referenced_real_world_value_map=sr.RealWorldValueMap(g['context']['rwvm']) if g['context']['rwvm'] else None,
         finding_sites=[sr.FindingSite(anatomic_location=cc(s), laterality=cc(lat) if lat else None)
                        for s, lat in zip(g['finding_sites'], g['lateralities'])] or None,
         measurements=[sr.Measurement(name=cc(n), value=v, unit=cc(u)) for n, v, u in g['measurements']] or None,
@@ -260,9 +275,42 @@ def referenced_instances(g):
 def all_references(g):
     """every instance referenced anywhere in the group (for the evidence list of a document)"""
     out = list(referenced_instances(g))
+    if (g.get('context') or {}).get('rwvm'):
+        out.append((RWV_CLASS, g['context']['rwvm']))
     if g['ref']['type'] == 'surface':
         out += list(g['ref']['sources'] or [])
     return out
+
+
+RWV_CLASS = '1.2.840.10008.5.1.4.1.1.67'
+
+
+def context_items(g):
+    """(items right after the tracking UID, items after the finding sites) predicted from the optional context parameters"""
+    def it(name, vt, rel, value='', ref=None):
+        return {'name': name, 'vt': vt, 'rel': rel, 'value': value, 'graphic': '', 'ref': list(ref) if ref else None, 'kids': []}
+    c = g.get('context') or {}
+    a, b = [], []
+    if c.get('session'):
+        a.append(it('C67447|NCIt', 'TEXT', 'HAS OBS CONTEXT', c['session']))
+    if c.get('algorithm'):
+        nm, ver, params = c['algorithm']
+        b.append(it('111001|DCM', 'TEXT', 'HAS CONCEPT MOD', nm))
+        b.append(it('111003|DCM', 'TEXT', 'HAS CONCEPT MOD', ver))
+        for x in params:
+            b.append(it('111002|DCM', 'TEXT', 'HAS CONCEPT MOD', x))
+    tp = c.get('time_point')
+    if tp:
+        b.append(it('C2348792|UMLS', 'TEXT', 'HAS OBS CONTEXT', tp['time_point']))
+        if tp['type']:
+            b.append(it('126072|DCM', 'CODE', 'HAS OBS CONTEXT', f"{tp['type'][0]}|{tp['type'][1]}"))
+        if tp['order'] is not None:
+            b.append(it('126073|DCM', 'NUM', 'HAS OBS CONTEXT', str(float(tp['order']))))
+        if tp['subject']:
+            b.append(it('126070|DCM', 'TEXT', 'HAS OBS CONTEXT', tp['subject']))
+    if c.get('rwvm'):
+        b.append(it('126100|DCM', 'COMPOSITE', 'CONTAINS', ref=(RWV_CLASS, c['rwvm'])))
+    return a, b
 
 
 def items_of(g):
@@ -274,6 +322,8 @@ def items_of(g):
     code = lambda c: f'{c[0]}|{c[1]}'   # noqa: E731
     out = [it('112039|DCM', 'TEXT', 'HAS OBS CONTEXT', g['tracking_id']),
            it('112040|DCM', 'UIDREF', 'HAS OBS CONTEXT', g['tracking_uid'])]
+    ctx_a, ctx_b = context_items(g)
+    out += ctx_a
     if g['finding_category']:
         out.append(it('276214006|SCT', 'CODE', 'CONTAINS', code(g['finding_category'])))
     if g['finding_type']:
@@ -282,6 +332,7 @@ def items_of(g):
         out.append(it('370129005|SCT', 'CODE', 'CONTAINS', code(g['method'])))
     for s in g['finding_sites']:
         out.append(it('363698007|SCT', 'CODE', 'HAS CONCEPT MOD', code(s)))
+    out += ctx_b
     for n, v, u in g['measurements']:
         out.append(it(code(n), 'NUM', 'CONTAINS', str(v)))
     for n, v in g['evaluations']:
